@@ -217,6 +217,63 @@ where
     (c, v, start.elapsed().as_secs_f64())
 }
 
+/// Determinism self-test support: run `n_runs` runs exactly as a check would and print, per run
+/// index, a 64-bit digest of everything the run produced (all counters, the hashes of every
+/// schedule / interleaving signature / state it recorded, violation classes and messages).
+/// Two processes, at any worker counts, must print identical lines.
+pub fn digest_runs<F>(prop: &str, n_runs: u64, f: F)
+where
+    F: Fn(u64, u64, &mut Counters) -> Vec<Violation> + Sync,
+{
+    let w = n_workers().max(1);
+    let base = base_seed();
+    let lines = Mutex::new(Vec::<(u64, u64)>::new());
+    std::thread::scope(|sc| {
+        for wi in 0..w {
+            let f = &f;
+            let lines = &lines;
+            let prop = prop.to_string();
+            sc.spawn(move || {
+                let mut local = vec![];
+                let mut i = wi as u64;
+                while i < n_runs {
+                    let seed = derive(base, &prop, i);
+                    let mut c = Counters::new();
+                    let v = f(i, seed, &mut c);
+                    let mut h = crate::prng::mix64(seed);
+                    let mut eat = |s: &str| {
+                        for b in s.bytes() {
+                            h = crate::prng::mix64(h ^ u64::from(b));
+                        }
+                    };
+                    eat(&c.to_json().to_string());
+                    for (k, set) in &c.distinct {
+                        eat(k);
+                        for x in set {
+                            eat(&x.to_string());
+                        }
+                    }
+                    for x in &v {
+                        eat(&x.class);
+                        eat(&x.message);
+                    }
+                    for s in &c.samples {
+                        eat(&s.to_string());
+                    }
+                    local.push((i, h));
+                    i += w as u64;
+                }
+                lines.lock().unwrap().extend(local);
+            });
+        }
+    });
+    let mut l = lines.into_inner().unwrap();
+    l.sort_unstable();
+    for (i, h) in l {
+        println!("{prop} {i} {h:016x}");
+    }
+}
+
 // ---------------------------------------------------------------------------- known findings
 
 #[derive(Clone, Debug, Serialize, Deserialize)]
